@@ -120,12 +120,18 @@ var detTemplates = []detTemplate{
 	{"stdin reformat", []string{"reformat", "newick"}, false, "@T"},
 }
 
-func detInputs(dir string, seed int64) map[string]string {
+func detInputs(dir string, seed int64) map[string]string { return detInputsN(dir, seed, 8) }
+
+// the same set of input files on trees of ntips >= 8 tips t1..tN
+func detInputsN(dir string, seed int64, ntips int) map[string]string {
 	r := rand.New(rand.NewSource(seed))
 	gp := defaultGen()
 	gp.InnerNames = 0
 	gp.PMulti = 0.25
-	names := tipNamesN("t", 8)
+	names := []string{} // the command templates name the tips t1..t8
+	for i := 1; i <= ntips; i++ {
+		names = append(names, fmt.Sprintf("t%d", i))
+	}
 	coll := collection(r, &gp, names, 13, false)
 	w := func(name, content string) string {
 		p := filepath.Join(dir, name)
